@@ -10,5 +10,6 @@ PROPS = {
     'C11': {'harness': ['harness/C11_dirhash.py']},
     'C15': {'harness': ['harness/C15_share.py']},
     'C19': {'harness': ['harness/C19_retain.py']},
+    'C16': {'harness': ['harness/C16_dirs.py']},
     'C17': {'harness': ['harness/C17_subst.py']},
 }
